@@ -35,6 +35,7 @@ TagInv == Mode = "tags" => TagAgrees(d)
 ContentInv == Mode = "content" => FromMetaElement(Render(d)) = <<"label", d.lbl>>
 DumpDocs == CASE Mode = "docs" -> PrintT(ToJson([d |-> d, exp |-> Expected(d)]))
               [] Mode \in {"hostile2", "hostile3"} -> PrintT(ToJson([d |-> d, exp |-> "*"]))
+              [] Mode = "tags" -> PrintT(ToJson([d |-> [kind |-> "tags", attrs |-> d, single |-> (TagRef(d) # "?")], exp |-> MetaTag(d)]))
               [] Mode = "content" -> PrintT(ToJson([d |-> [kind |-> "content", toks |-> Render(d), lbl |-> d.lbl], exp |-> "label"]))
               [] OTHER -> TRUE
 =============================================================================
